@@ -1,14 +1,32 @@
 (* C19 correspondence cases: an input together with what the implementation answered *)
 From FB Require Export C19.Model Base.Run.
 
-(* strings in the case files: one hexadecimal numeral per string, 1 followed by six hex digits per
-   code point (a list of numerals is far slower to read for coqc); [ds] decodes it *)
-Fixpoint ds_dec (fuel : nat) (n : N) (acc : str) : str :=
-  match fuel with
-  | O => acc
-  | S f => if N.leb n 1 then acc else ds_dec f (N.shiftr n 24) (N.land n 0xFFFFFF :: acc)
-  end.
-Definition ds (n : N) : str := ds_dec (N.to_nat (N.size n)) n [].
+(* code points of printable ASCII as constants: coqc reads an identifier about three times faster
+   than a numeral, and the case files are mostly strings *)
+Definition k32 : N := 32. Definition k33 : N := 33. Definition k34 : N := 34. Definition k35 : N := 35.
+Definition k36 : N := 36. Definition k37 : N := 37. Definition k38 : N := 38. Definition k39 : N := 39.
+Definition k40 : N := 40. Definition k41 : N := 41. Definition k42 : N := 42. Definition k43 : N := 43.
+Definition k44 : N := 44. Definition k45 : N := 45. Definition k46 : N := 46. Definition k47 : N := 47.
+Definition k48 : N := 48. Definition k49 : N := 49. Definition k50 : N := 50. Definition k51 : N := 51.
+Definition k52 : N := 52. Definition k53 : N := 53. Definition k54 : N := 54. Definition k55 : N := 55.
+Definition k56 : N := 56. Definition k57 : N := 57. Definition k58 : N := 58. Definition k59 : N := 59.
+Definition k60 : N := 60. Definition k61 : N := 61. Definition k62 : N := 62. Definition k63 : N := 63.
+Definition k64 : N := 64. Definition k65 : N := 65. Definition k66 : N := 66. Definition k67 : N := 67.
+Definition k68 : N := 68. Definition k69 : N := 69. Definition k70 : N := 70. Definition k71 : N := 71.
+Definition k72 : N := 72. Definition k73 : N := 73. Definition k74 : N := 74. Definition k75 : N := 75.
+Definition k76 : N := 76. Definition k77 : N := 77. Definition k78 : N := 78. Definition k79 : N := 79.
+Definition k80 : N := 80. Definition k81 : N := 81. Definition k82 : N := 82. Definition k83 : N := 83.
+Definition k84 : N := 84. Definition k85 : N := 85. Definition k86 : N := 86. Definition k87 : N := 87.
+Definition k88 : N := 88. Definition k89 : N := 89. Definition k90 : N := 90. Definition k91 : N := 91.
+Definition k92 : N := 92. Definition k93 : N := 93. Definition k94 : N := 94. Definition k95 : N := 95.
+Definition k96 : N := 96. Definition k97 : N := 97. Definition k98 : N := 98. Definition k99 : N := 99.
+Definition k100 : N := 100. Definition k101 : N := 101. Definition k102 : N := 102. Definition k103 : N := 103.
+Definition k104 : N := 104. Definition k105 : N := 105. Definition k106 : N := 106. Definition k107 : N := 107.
+Definition k108 : N := 108. Definition k109 : N := 109. Definition k110 : N := 110. Definition k111 : N := 111.
+Definition k112 : N := 112. Definition k113 : N := 113. Definition k114 : N := 114. Definition k115 : N := 115.
+Definition k116 : N := 116. Definition k117 : N := 117. Definition k118 : N := 118. Definition k119 : N := 119.
+Definition k120 : N := 120. Definition k121 : N := 121. Definition k122 : N := 122. Definition k123 : N := 123.
+Definition k124 : N := 124. Definition k125 : N := 125. Definition k126 : N := 126.
 
 Definition coord_eqb (a b : coord) : bool :=
   str_eqb (c_group a) (c_group b) && str_eqb (c_artifact a) (c_artifact b) && str_eqb (c_version a) (c_version b)
